@@ -357,6 +357,12 @@ def verify_contract(c, reg, timeout_ms=QUICK_TIMEOUT_MS, max_paths=4000, want_sm
     loops_local = {k: v for k, v in api.LOOPS.items()}
     reg.loop_contracts = loops_local
     reg.bounds = dict(c.bounds)
+    if c.local_models is not None:
+        # models that only this contract may rely on: installed on a private copy of the tables
+        reg.models = dict(reg.models)
+        reg.sym_methods = dict(reg.sym_methods)
+        c.local_models(reg)
+        out['notes'].append('assumed models for this contract only: %s' % (getattr(c.local_models, '__doc__', None) or c.local_models.__name__))
     path_records = []
 
     def run_path(ctx):
